@@ -62,9 +62,15 @@ var (
 	Pipe           = net.Pipe
 )
 
-// InterfaceAddrs: the simulated machine reports no interfaces (rain then has no
-// "external IP" until a peer tells it one).
-func InterfaceAddrs() ([]net.Addr, error) { return nil, nil }
+// InterfaceAddrs reports the one interface of the simulated machine.
+func InterfaceAddrs() ([]net.Addr, error) {
+	return []net.Addr{&net.IPNet{IP: net.ParseIP(SUTAddr).To4(), Mask: net.CIDRMask(24, 32)}}, nil
+}
+
+// SUTAddr is the (public) address of the machine the system under test runs on. rain reads
+// its interface addresses once at package initialisation, before any simulated host exists,
+// so the address is a constant of the simulation.
+const SUTAddr = "30.0.0.1"
 
 // ---- world --------------------------------------------------------------------
 
